@@ -79,5 +79,5 @@ def _extra_monitors(c, io, build):
 
 
 mach.install(globals(), "C05", ("EvBefore", "EvFlush", "EvItemDone", "EvAfter", "EvIllegal"), ("C05:",), PROFILES,
-             n_quick=300, n_thorough=5000, nontrivial=_nontrivial, level="proof", corpus=[_KEPT_FLUSHED] + _REENTRANT,
+             n_quick=300, n_thorough=25000, nontrivial=_nontrivial, level="proof", corpus=[_KEPT_FLUSHED] + _REENTRANT,
              impl_only=_is_reentrant, extra_gen=_extra_gen, extra_monitors=_extra_monitors)
